@@ -67,7 +67,7 @@ def run(ctx):
     st = explore(sw, ["ans"], 0, sink, stats=st, name="option-variants-full")
     # (g) integer-valued landscapes returned as NumPy / Python numeric types other than float (differences must not wrap around)
     ty = [dict(job(D, g, target="sphere_in", opts={"max_fun_evals": 40 + 10 * D}, seed=seeds[0]), val_type=t) for D in (1, 2) for g in ("lin", "log")
-          for t in ("uint64", "int64", "int32", "float32", "int", "uint8")]
+          for t in ("uint64", "int64", "int32", "float32", "int", "uint8", "hugeint", "fraction")]
     st = explore(ty, ["ans"], 0, sink, stats=st, name="typed-values")
     sink.finish_cov(st)
     rep.set("gate_jobs", ng)
